@@ -1,5 +1,7 @@
 import ZV.Model.C33
+import ZV.Model.C33Struct
 import ZV.Proofs.C33
+import ZV.Proofs.C33Struct
 /-!
   C33 — JSON encodings of zcrypto value types round-trip.
 
@@ -18,11 +20,15 @@ import ZV.Proofs.C33
     i.e. the keys of the stringer table / `0 ≤ p < total_key_algorithms` / `0 ≤ a < len(algoName)`.
     Other integers (which no constructor of the library produces) are outside the domain:
     they encode as `ClientAuthType(N)` / `unknown_algorithm` / the decimal number and do not decode back.
-  * structured types (checked on the real code only, T3): byte strings exact; big integers numeric, a nil
-    REQUIRED big integer (DH prime/generator, point X, RSA N/E, nil RSA key) is identified with 0, a nil
-    OPTIONAL one with an absent member; IP addresses by `IP.Equal`, masks bytewise; names field-wise on
-    every attribute the encoder emits (non-empty valid UTF-8 values); OIDs with ≥ 1 arc in 0..2^31-1
-    ; `Min`/`Max` of subtrees and `Curve` of ECDHParams are not encoded.
+  * structured types: byte strings exact (up to nil-vs-empty where the member is `omitempty` or the decoder
+    always allocates: `emptyAsNil` / `nilAsEmpty`); big integers numeric, a nil REQUIRED big integer (DH
+    prime/generator, point X) is identified with 0, a nil RSA key with the key (0, 0) and a nil RSA modulus / exponent with 0 (after `fix:` dd0a2ef), a nil OPTIONAL one with an
+    absent member; OIDs with ≥ 1 arc, arcs any Go `int` (AuxOID: ≥ 0); `Curve` of ECDHParams is not encoded.
+    MODELLED (ZV.Model.C33Struct, theorems at the end of this file): AuxOID, CertificateFingerprint, SHA256Hash,
+    DigitallySigned, AttributeTypeAndValue, OtherName, Extension, RSAPublicKey, RSAClientParams, ECDHParams,
+    KeyShareExtension.  Checked on the real code only (T3): GeneralNames, NameConstraints, GeneralSubtreeIP
+    (IP addresses by `IP.Equal`, masks bytewise; `Min`/`Max` are not encoded), pkix.Name (field-wise on every
+    attribute the encoder emits, non-empty valid UTF-8 values).
 -/
 namespace ZV.C33
 open ZV.C33.Gen
@@ -279,5 +285,419 @@ theorem dh_roundtrip (req opt : List (Option Nat)) :
       have := param_roundtrip (some n)
       simp only [nilAsZero] at this
       simp [this]
+
+/-! ## structured types (ZV.Model.C33Struct): strings through the modelled `strconv` / `encoding/hex` /
+    `encoding/base64` functions, objects as records of optional members
+
+  Normal forms ("equal value"): a `[]byte` written with `omitempty` reads back nil when it was empty
+  (`emptyAsNil`); a nil fingerprint / signature reads back as the empty non-nil slice (`nilAsEmpty`);
+  a nil `*rsa.PublicKey` reads back as the key (0, 0), a nil modulus / exponent as 0; a nil point X as 0 (`nilAsZero`, as before);
+  a nil OID in an AttributeTypeAndValue is the same as the empty one. OID arcs are Go `int`s (`int64`). -/
+
+/-! ### the standard-library functions the encoders and decoders go through -/
+
+/-- `strconv.Atoi (strconv.Itoa i) = i` for every Go `int`. -/
+theorem atoi_itoa_roundtrip (i : Int) (h : int64 i) : atoi (intToDec i) = some i :=
+  atoi_intToDec i h.1 h.2
+
+example : int64 (-9223372036854775808) ∧ int64 9223372036854775807 := by
+  constructor <;> (unfold int64; omega)
+
+/-- `hex.DecodeString (hex.EncodeToString b) = b` for every byte string. -/
+theorem hex_roundtrip (b : Bytes) : hexDecode (hexEncode b) = some b := hexDecode_hexEncode b
+
+/-- `base64.StdEncoding.DecodeString (EncodeToString b) = b` for every byte string (all three padding cases). -/
+theorem base64_roundtrip (b : Bytes) : b64Decode (b64Encode b) = some b := b64Decode_b64Encode b
+
+/-- `strings.Split (oid.String(), ".")` gives the arcs back (an OID with at least one arc). -/
+theorem oid_split_join (o : List Int) (hne : o ≠ []) : splitDot (oidStringI o) = o.map intToDec :=
+  splitDot_oidStringI o hne
+
+example : ([1, 2, 840] : List Int) ≠ [] := by decide
+
+theorem emptyAsNil_idem (b : Option Bytes) : emptyAsNil (emptyAsNil b) = emptyAsNil b := by
+  rcases b with _ | _ | _ <;> rfl
+
+theorem nilAsEmpty_idem (b : Option Bytes) : nilAsEmpty (some (nilAsEmpty b)) = nilAsEmpty b := rfl
+
+/-- what an `omitempty` `[]byte` member reads back as. -/
+theorem memBytes_omitBytes (b : Option Bytes) : memBytes (omitBytes b) = .ok (emptyAsNil b) := by
+  rcases b with _ | _ | ⟨x, r⟩
+  · rfl
+  · rfl
+  · simp [omitBytes, memBytes, emptyAsNil, b64Decode_b64Encode]
+
+theorem memStr_omitStr (s : Str) : memStr (omitStr s) = .ok s := by
+  cases s <;> rfl
+
+/-- an `omitempty` `int` member reads back exactly (0 is left out and 0 is the zero value). -/
+theorem memInt_omitInt (i : Int) (h : int64 i) : memInt int64Min int64Max (omitInt i) = .ok i := by
+  unfold omitInt
+  split
+  · rename_i h0; subst h0; rfl
+  · exact memInt_num_intToDec i h
+
+example : int64 (-5) := by unfold int64; omega
+
+/-! ### pkix.AuxOID -/
+
+/-- **AuxOID round trip**: every OID with at least one arc, arcs any non-negative Go `int`. -/
+theorem auxOID_roundtrip (o : List Nat) (hne : o ≠ []) (h : ∀ a ∈ o, a < 9223372036854775808) :
+    auxOIDUnmarshal (.str (auxOIDMarshal (o.map Int.ofNat))) = .ok o := by
+  have hs : splitDot (oidString o) = o.map natToDec := by
+    have := splitDot_oidStringI (o.map Int.ofNat) (by simpa using hne)
+    rw [oidStringI_ofNat, List.map_map] at this
+    rw [this]
+    apply List.map_congr_left
+    intro a _
+    exact intToDec_ofNat a
+  simp [auxOIDUnmarshal, auxOIDMarshal, memStr, auxOIDDecode, oidStringI_ofNat, hs, atoiNonNeg_map o h]
+
+example : ([2, 5, 29, 17] : List Nat) ≠ [] ∧ ∀ a ∈ ([2, 5, 29, 17] : List Nat), a < 9223372036854775808 := by decide
+
+/-- outside the domain, as the code is: the EMPTY OID is written `""` and refused (finding D24), and a
+    negative arc is written but refused. -/
+example : auxOIDUnmarshal (.str (auxOIDMarshal [])) = .err := by decide
+example : auxOIDUnmarshal (.str (auxOIDMarshal [1, -2])) = .err := by decide +kernel
+
+theorem auxOID_unmarshal_no_panic (j : JV) : auxOIDUnmarshal j ≠ .panic := by
+  unfold auxOIDUnmarshal
+  cases j <;> simp only [memStr] <;> (try split) <;> simp
+
+/-! ### x509.CertificateFingerprint -/
+
+/-- **CertificateFingerprint round trip**: every byte string; a nil fingerprint reads back empty. -/
+theorem fingerprint_roundtrip (f : Option Bytes) :
+    fingerprintUnmarshal (.str (fingerprintMarshal f)) = .ok (nilAsEmpty f) := by
+  simp [fingerprintUnmarshal, fingerprintMarshal, memStr, hexDecode_hexEncode]
+
+theorem fingerprint_unmarshal_no_panic (j : JV) : fingerprintUnmarshal j ≠ .panic := by
+  unfold fingerprintUnmarshal
+  cases j <;> simp only [memStr] <;> (try split) <;> simp
+
+/-! ### ct.SHA256Hash, ct.DigitallySigned -/
+
+/-- **SHA256Hash round trip**: every 32-byte array. -/
+theorem sha256Hash_roundtrip (h : Bytes) (hl : h.length = 32) :
+    sha256HashUnmarshal (.str (sha256HashMarshal h)) = .ok h := by
+  simp [sha256HashUnmarshal, sha256HashMarshal, memStr, b64Decode_b64Encode, hl]
+
+example : (List.replicate 32 (7 : UInt8)).length = 32 := by decide
+
+/-- the decoder accepts 32-byte values only. -/
+theorem sha256Hash_unmarshal_ok (j : JV) (b : Bytes) (h : sha256HashUnmarshal j = .ok b) : b.length = 32 := by
+  unfold sha256HashUnmarshal at h
+  split at h
+  · split at h
+    · cases h
+    · split at h
+      · cases h
+      · rename_i hl; injection h with h; subst h; simpa using hl
+  · cases h
+  · cases h
+
+/-- **DigitallySigned round trip**: both algorithm bytes and every signature of up to 65535 bytes
+    (a nil signature reads back empty); neither step fails. -/
+theorem digitallySigned_roundtrip (h s : UInt8) (sig : Option Bytes) (hl : (nilAsEmpty sig).length ≤ 65535) :
+    (dsMarshal h s sig).bind (fun t => dsUnmarshal (.str t)) = .ok (h, s, nilAsEmpty sig) := by
+  have hn : ¬ ((nilAsEmpty sig).length > 65535) := by omega
+  have e1 : (UInt8.ofNat ((nilAsEmpty sig).length / 256)).toNat = (nilAsEmpty sig).length / 256 := by
+    simp; omega
+  have e2 : (UInt8.ofNat ((nilAsEmpty sig).length % 256)).toNat = (nilAsEmpty sig).length % 256 := by
+    simp
+  have e3 : (nilAsEmpty sig).length / 256 * 256 + (nilAsEmpty sig).length % 256 = (nilAsEmpty sig).length := by omega
+  simp only [dsMarshal, hn, if_false, Res.bind, dsUnmarshal, memStr, b64Decode_b64Encode, dsParse, e1, e2, e3]
+  simp
+
+example : (nilAsEmpty (some [1, 2, 3])).length ≤ 65535 := by decide
+
+/-- a longer signature is an ERROR of the encoder, not a panic and not a truncated length. -/
+theorem digitallySigned_too_long (h s : UInt8) (sig : Option Bytes) (hl : (nilAsEmpty sig).length > 65535) :
+    dsMarshal h s sig = .err := by
+  simp [dsMarshal, hl]
+
+example : (nilAsEmpty (some (List.replicate 65536 (0 : UInt8)))).length > 65535 := by
+  simp only [nilAsEmpty, List.length_replicate]; omega
+
+theorem digitallySigned_unmarshal_no_panic (j : JV) : dsUnmarshal j ≠ .panic := by
+  unfold dsUnmarshal
+  cases j <;> simp only [memStr] <;> (try split) <;> (try simp) <;>
+    (unfold dsParse; split <;> (try split) <;> simp)
+
+/-! ### pkix.AttributeTypeAndValue, pkix.OtherName, pkix.Extension -/
+
+/-- **AttributeTypeAndValue round trip**: every OID (also the nil one, also negative arcs) and every string
+    value (also the empty one, which is left out). -/
+theorem atv_roundtrip (t : List Int) (v : Str) (h : ∀ a ∈ t, int64 a) :
+    atvUnmarshal (atvMarshal t v) = .ok (t, v) := by
+  simp only [atvUnmarshal, atvMarshal, memStr_omitStr]
+  cases ht : oidStringI t with
+  | nil =>
+    cases t with
+    | nil => rfl
+    | cons a r => exact absurd ht (oidStringI_ne_nil _ (by simp))
+  | cons c r =>
+    have hne : t ≠ [] := by
+      intro e; subst e; simp [oidStringI, joinDot] at ht
+    simp only
+    rw [← ht, splitDot_oidStringI t hne, atoiAll_map t h]
+
+example : ∀ a ∈ ([2, 5, 4, 3] : List Int), int64 a := by unfold int64; decide
+
+/-- **OtherName round trip**: every non-empty type id; the value up to nil-vs-empty. -/
+theorem otherName_roundtrip (t : List Int) (v : Option Bytes) (hne : t ≠ []) (h : ∀ a ∈ t, int64 a) :
+    otherNameUnmarshal (otherNameMarshal t v) = .ok (t, emptyAsNil v) := by
+  simp only [otherNameUnmarshal, otherNameMarshal, memStr_omitStr, memBytes_omitBytes]
+  cases ht : oidStringI t with
+  | nil => exact absurd ht (oidStringI_ne_nil _ hne)
+  | cons c r =>
+    simp only
+    rw [← ht, splitDot_oidStringI t hne, atoiAll_map t h]
+
+example : ([1, 3, 6, 1] : List Int) ≠ [] ∧ ∀ a ∈ ([1, 3, 6, 1] : List Int), int64 a := by unfold int64; decide
+
+/-- outside the domain, as the code is: an OtherName without a type id is written `{}` and refused. -/
+example : otherNameUnmarshal (otherNameMarshal [] (some [1])) = .err := by decide
+
+/-- **Extension round trip**: every non-empty id, both criticality values; the value up to nil-vs-empty. -/
+theorem extension_roundtrip (t : List Int) (c : Bool) (v : Option Bytes) (hne : t ≠ []) (h : ∀ a ∈ t, int64 a) :
+    extUnmarshal (extMarshal t c v) = .ok (t, c, emptyAsNil v) := by
+  simp only [extUnmarshal, extMarshal, memStr_omitStr, memBytes_omitBytes, memBool]
+  rw [splitDot_oidStringI t hne, atoiAll_map t h]
+
+example : extUnmarshal (extMarshal [] true none) = .err := by decide
+
+theorem atv_unmarshal_no_panic (j : AtvJSON) : atvUnmarshal j ≠ .panic := by
+  unfold atvUnmarshal
+  split
+  · split
+    · simp
+    · split <;> simp
+  · simp
+
+theorem otherName_unmarshal_no_panic (j : OtherNameJSON) : otherNameUnmarshal j ≠ .panic := by
+  unfold otherNameUnmarshal
+  split
+  · split
+    · simp
+    · split <;> simp
+  · simp
+
+theorem extension_unmarshal_no_panic (j : ExtJSON) : extUnmarshal j ≠ .panic := by
+  unfold extUnmarshal
+  split
+  · split <;> simp
+  · simp
+
+/-! ### json.RSAPublicKey, json.RSAClientParams -/
+
+/-- **RSAPublicKey round trip** (after `fix:` dd0a2ef): every modulus ≥ 0 of any size and EVERY exponent
+    (negative and larger than 64 bits included: it travels as a JSON number of arbitrary size); a NIL modulus
+    and a NIL exponent read back as 0 (normal form `nilAsZero` / `nilAsZeroI`). -/
+theorem rsaPublicKey_roundtrip (n : Option Nat) (e : Option Int)
+    (hmem : (nilAsEmpty (n.map natBytes)).length < 2 ^ 60) :
+    (rsaMarshal (some (n, e))).bind rsaUnmarshal = .ok (nilAsZero n, nilAsZeroI e) := by
+  have hl : memInt int64Min int64Max (some (JV.num (intToDec (Int.ofNat ((nilAsEmpty (n.map natBytes)).length * 8))))) =
+      .ok (Int.ofNat ((nilAsEmpty (n.map natBytes)).length * 8)) := by
+    apply memInt_num_intToDec
+    unfold int64
+    simp only [Int.ofNat_eq_natCast]
+    omega
+  have he : bigSetString10 (rsaExponentText e) = some (nilAsZeroI e) := by
+    cases e with
+    | none => decide
+    | some ev => exact bigSetString10_intToDec ev
+  have hm : memBytes (some (jBytes (n.map natBytes))) = .ok (n.map natBytes) := by
+    cases n with
+    | none => rfl
+    | some k => simp [jBytes, memBytes, b64Decode_b64Encode]
+  have hn : bytesNat (nilAsEmpty (n.map natBytes)) = nilAsZero n := by
+    cases n with
+    | none => rfl
+    | some k => simp [nilAsEmpty, nilAsZero, bytesNat_natBytes]
+  simp only [rsaMarshal, Res.bind, rsaUnmarshal, memNumber, hm, hl, he, hn]
+  simp
+
+example : (nilAsEmpty ((some 65537 : Option Nat).map natBytes)).length < 2 ^ 60 := by decide
+example : (nilAsEmpty ((none : Option Nat).map natBytes)).length < 2 ^ 60 := by decide
+
+/-- the half-filled keys of finding F-C33-rsa-nil-modulus now read back as zero. -/
+theorem rsaPublicKey_nil_member_roundtrip :
+    (rsaMarshal (some (none, some 65537))).bind rsaUnmarshal = .ok (0, 65537) ∧
+    (rsaMarshal (some (some 5, none))).bind rsaUnmarshal = .ok (5, 0) ∧
+    (rsaMarshal (some (none, none))).bind rsaUnmarshal = .ok (0, 0) :=
+  ⟨rsaPublicKey_roundtrip none (some 65537) (by decide), rsaPublicKey_roundtrip (some 5) none (by decide),
+   rsaPublicKey_roundtrip none none (by decide)⟩
+
+/-- a nil key is written as the zero key and reads back as (0, 0). -/
+theorem rsaPublicKey_nil_roundtrip : (rsaMarshal none).bind rsaUnmarshal = .ok (0, 0) := by decide
+
+/-- **the encoder neither panics nor fails, for ANY key** — nil key, nil modulus, nil exponent included. -/
+theorem rsaPublicKey_marshal_total (key : Option (Option Nat × Option Int)) :
+    ∃ j, rsaMarshal key = .ok j := by
+  rcases key with _ | ⟨n, e⟩ <;> exact ⟨_, rfl⟩
+
+theorem rsaPublicKey_marshal_no_panic (key : Option (Option Nat × Option Int)) : rsaMarshal key ≠ .panic := by
+  obtain ⟨j, h⟩ := rsaPublicKey_marshal_total key
+  rw [h]; simp
+
+/-- finding F-C33-rsa-nil-modulus as the code WAS (before `fix:` dd0a2ef): a nil modulus made
+    `RSAPublicKey.MarshalJSON` dereference nil, a nil exponent was an encoder error. -/
+example : rsaMarshalOld (some (none, some 65537)) = .panic := rfl
+example : rsaMarshalOld (some (some 5, none)) = .err := rfl
+
+theorem rsaPublicKey_unmarshal_no_panic (j : RsaJSON) : rsaUnmarshal j ≠ .panic := by
+  unfold rsaUnmarshal
+  split
+  · split
+    · simp
+    · split <;> simp
+  · simp
+
+/-- **RSAClientParams round trip** (struct tags only): every 16-bit length, the secret up to nil-vs-empty. -/
+theorem rsaClientParams_roundtrip (len : Nat) (pms : Option Bytes) (h : len < 65536) :
+    rsaClientUnmarshal (rsaClientMarshal len pms) = .ok (len, emptyAsNil pms) := by
+  have hu : memUint 65535 (omitInt (Int.ofNat len)) = .ok len := by
+    unfold omitInt
+    split
+    · rename_i h0
+      have : len = 0 := by simp only [Int.ofNat_eq_natCast] at h0; omega
+      subst this; rfl
+    · have hle : len ≤ 65535 := by omega
+      simp only [memUint, intToDec_ofNat, parseDigits_natToDec, hle, if_true]
+  simp only [rsaClientUnmarshal, rsaClientMarshal, hu, memBytes_omitBytes]
+
+example : (22 : Nat) < 65536 := by decide
+
+/-! ### json.ECDHParams -/
+
+theorem optRes_point (o : Option (Option Nat × Option Nat)) :
+    optRes ecPointDecode (o.map (fun p => ecPointEncode p.1 p.2)) = .ok (o.map pointNF) := by
+  cases o with
+  | none => rfl
+  | some p => simp [optRes, ecPoint_roundtrip, pointNF]
+
+theorem priv_roundtrip (p : Option Bytes × Int) (h : int64 p.2) : privUnmarshal (privMarshal p) = .ok (privNF p) := by
+  simp only [privUnmarshal, privMarshal, memBytes_omitBytes, memInt_omitInt p.2 h, privNF]
+
+theorem optRes_priv (o : Option (Option Bytes × Int)) (h : ∀ p, o = some p → int64 p.2) :
+    optRes privUnmarshal (o.map privMarshal) = .ok (o.map privNF) := by
+  cases o with
+  | none => rfl
+  | some p => simp [optRes, priv_roundtrip p (h p rfl)]
+
+/-- **ECDHParams round trip**: every curve id, every combination of present / absent public points (with or
+    without Y) and private values; up to the normal forms of points and `omitempty` byte strings. -/
+theorem ecdh_roundtrip (v : EcdhVal) (hc : v.curve < 65536)
+    (hs : ∀ p, v.server_private = some p → int64 p.2) (hcl : ∀ p, v.client_private = some p → int64 p.2) :
+    ecdhUnmarshal (ecdhMarshal v) = .ok (ecdhNF v) := by
+  have hcurve : curveIdMember (if v.curve = 0 then none else some (tlsCurveIDEncode v.curve)) = .ok v.curve := by
+    split
+    · rename_i h0; rw [h0]; rfl
+    · exact tlsCurveID_roundtrip v.curve hc
+  simp only [ecdhUnmarshal, ecdhMarshal, hcurve, optRes_point, optRes_priv _ hs, optRes_priv _ hcl, ecdhNF]
+
+example : (23 : Nat) < 65536 ∧ (∀ p, (some (some [1, 2], (2 : Int)) : Option (Option Bytes × Int)) = some p → int64 p.2) := by
+  refine ⟨by decide, ?_⟩
+  intro p h; injection h with h; subst h; unfold int64; simp
+
+theorem pointNF_idem (p : Option Nat × Option Nat) : pointNF (pointNF p) = pointNF p := rfl
+
+theorem privNF_idem (p : Option Bytes × Int) : privNF (privNF p) = privNF p := by
+  obtain ⟨b, l⟩ := p
+  simp only [privNF, emptyAsNil_idem]
+
+theorem ecdhNF_idem (v : EcdhVal) : ecdhNF (ecdhNF v) = ecdhNF v := by
+  obtain ⟨c, sp, spr, cp, cpr⟩ := v
+  cases sp <;> cases spr <;> cases cp <;> cases cpr <;>
+    simp [ecdhNF, pointNF_idem, privNF_idem]
+
+/-! ### tls.KeyShareExtension -/
+
+/-- **KeyShareExtension round trip**: every group id (a non-nil `KeyExchange`). -/
+theorem keyShare_roundtrip (c : Nat) (h : c < 65536) :
+    keyShareUnmarshal (keyShareMarshal (some c)) = .ok c := curve_roundtrip c h
+
+example : (29 : Nat) < 65536 := by decide
+
+/-- outside the domain, as the code is: a nil `KeyExchange` is written `null`, which the type's own decoder
+    refuses (the zero CurveID aux has the name "", not "unknown"). -/
+example : keyShareUnmarshal (keyShareMarshal none) = .err := by decide +kernel
+
+/-! ### x509.GeneralSubtreeIP, IPv4 subtrees -/
+
+/-- `net.ParseCIDR`'s address part gives an IPv4 address back from its dotted-quad text. -/
+theorem ipv4_text_roundtrip (a b c d : UInt8) : parseV4 (ipv4String [a, b, c, d]) = some [a, b, c, d] :=
+  parseV4_ipv4String a b c d
+
+/-- a contiguous mask is `CIDRMask` of its own prefix length (`Mask.Size` then `CIDRMask`). -/
+theorem cidrMask_of_size (m : Bytes) (n : Nat) (h : simpleMaskLength m = some n) :
+    cidrMask m.length n = m ∧ n ≤ 8 * m.length := cidrMask_simpleMaskLength m n h
+
+example : simpleMaskLength [255, 255, 240, 0] = some 20 := by decide
+
+/-- **GeneralSubtreeIP round trip, IPv4** (after `fix:` 0939895): every address, in the 4-byte or the
+    IPv4-mapped 16-byte form, with EVERY 4-byte mask — the 33 prefixes (written `/n`, with begin / end / mask
+    members) and all non-contiguous ones (written `/hexmask`, read first by the decoder).  Normal form: the
+    address reads back in its 16-byte IPv4-mapped form (`v4in16`, equal under `IP.Equal`); the mask bytewise. -/
+theorem subtreeIP4_roundtrip (mapped : Bool) (a b c d : UInt8) (mask : Bytes) (hm : mask.length = 4) :
+    subtreeIP4Unmarshal (subtreeIP4Marshal mapped [a, b, c, d] mask) = .ok (v4in16 [a, b, c, d], mask) := by
+  unfold subtreeIP4Marshal
+  have hnone : memStr none = .ok [] := rfl
+  cases hsl : simpleMaskLength mask with
+  | some l =>
+    obtain ⟨h1, h2⟩ := cidrMask_simpleMaskLength mask l hsl
+    rw [hm] at h1 h2
+    have hl : l ≤ 32 := by omega
+    have hc : memStr (omitStr (ipv4String [a, b, c, d] ++ '/' :: natToDec l)) = .ok (ipv4String [a, b, c, d] ++ '/' :: natToDec l) :=
+      memStr_omitStr _
+    have hp : prefixLen32 (natToDec l) = some l := by
+      simp only [prefixLen32, parseDigits_natToDec, hl, if_true]
+    have hh : hexMask4 (natToDec l) = none := hexMask4_prefix ⟨l, by omega⟩
+    cases mapped <;>
+      simp only [subtreeIP4Unmarshal, Bool.false_eq_true, if_false, if_true, hc, memStr_omitStr, hnone, cutSlash_ipv4,
+        parseV4_ipv4String, hh, hp, h1]
+  | none =>
+    have hc : memStr (omitStr (ipv4String [a, b, c, d] ++ '/' :: hexEncode mask)) = .ok (ipv4String [a, b, c, d] ++ '/' :: hexEncode mask) :=
+      memStr_omitStr _
+    simp only [subtreeIP4Unmarshal, hc, hnone, cutSlash_ipv4, parseV4_ipv4String, hexMask4_hexEncode mask hm]
+
+example : ([0, 0, 0, 32] : Bytes).length = 4 := by decide
+
+/-- the former counter-example of finding F-C33-subtreeip-hexmask now round-trips … -/
+example : subtreeIP4Unmarshal (subtreeIP4Marshal false [10, 1, 2, 3] [0, 0, 0, 32]) =
+    .ok (v4in16 [10, 1, 2, 3], [0, 0, 0, 32]) := subtreeIP4_roundtrip false 10 1 2 3 [0, 0, 0, 32] (by decide)
+
+/-- … and as the code WAS (`net.ParseCIDR` first): `10.1.2.3/00000020` came back as the prefix /20. -/
+example : subtreeIP4UnmarshalOld (subtreeIP4Marshal false [10, 1, 2, 3] [0, 0, 0, 32]) =
+    .ok (v4in16 [10, 1, 2, 3], [255, 255, 240, 0]) := by decide +kernel
+
+/-- the old defect was confined to these masks: not a prefix, all eight hex digits decimal, value ≤ 32. -/
+example : maskAmbiguous [0, 0, 0, 32] = true ∧ maskAmbiguous [0, 0, 0, 0x33] = false ∧ maskAmbiguous [0, 0, 1, 0] = false := by decide
+
+/-- a text BOTH readers accept is now a hex mask: `1.2.3.4/00000020` is the mask 0.0.0.32, while the
+    decimal forms `/20` and `/020` are still prefixes. -/
+example : subtreeIP4Unmarshal { cidr := some (.str "1.2.3.4/00000020".toList), begin_ := none, end_ := none, mask := none } =
+      .ok (v4in16 [1, 2, 3, 4], [0, 0, 0, 32]) ∧
+    subtreeIP4Unmarshal { cidr := some (.str "1.2.3.4/020".toList), begin_ := none, end_ := none, mask := none } =
+      .ok (v4in16 [1, 2, 3, 4], [255, 255, 240, 0]) := by decide +kernel
+
+/-- re-encoding the decoded value (16-byte form) gives the same `cidr` text: the normal form is stable. -/
+theorem subtreeIP4_cidr_stable (a b c d : UInt8) (mask : Bytes) :
+    (subtreeIP4Marshal true [a, b, c, d] mask).cidr = (subtreeIP4Marshal false [a, b, c, d] mask).cidr := by
+  unfold subtreeIP4Marshal
+  cases simpleMaskLength mask <;> rfl
+
+theorem subtreeIP4_unmarshal_no_panic (j : SubtreeIPJSON) : subtreeIP4Unmarshal j ≠ .panic := by
+  unfold subtreeIP4Unmarshal
+  split
+  · split
+    · simp
+    · split
+      · simp
+      · split
+        · simp
+        · split <;> simp
+  · simp
 
 end ZV.C33
